@@ -34,6 +34,7 @@ TRACING_MACROS = ("debug", "info", "warn", "trace", "error")
 VERIF_FAIL_PATTERNS = [
     "postcondition not satisfied",
     "precondition not satisfied",
+    "requires not satisfied",  # the `requires` of an `assert .. by(..) requires ..` proof step
     "assertion failed",
     "invariant not satisfied",
     "possible arithmetic underflow/overflow",
